@@ -431,6 +431,9 @@ class Isotropic(_Elastic):
 
         mu = self.get_mu()
         lmbda = self.get_lambda()
+        if dim == 3:
+            # the 3D law, also when it is asked of a 2D model (get_lambda follows the 2D simplification of the model)
+            lmbda = E * v / ((1 + v) * (1 - 2 * v))
 
         dtype = object if True in [isinstance(p, np.ndarray) for p in [E, v]] else float
 
@@ -482,7 +485,8 @@ class Isotropic(_Elastic):
         return c, s
 
     def Walpole_Decomposition(self) -> tuple[_types.FloatArray, _types.FloatArray]:
-        c1 = self.get_bulk()
+        # bulk modulus of the 3D law (the basis tensors below are the 3D ones, whatever the dimension of the model)
+        c1 = self.E / (3 * (1 - 2 * self.v))
         c2 = self.get_mu()
 
         Ivect = np.array([1, 1, 1, 0, 0, 0])
